@@ -5,14 +5,17 @@ Import ListNotations.
 
 Theorem C15_reset_restores :
   forall (O : Ops),
-  forall (L X : Type) (vget : L -> X -> T O) (vset : L -> X -> T O -> L) (ok : X -> Prop),
+  forall (L X : Type) (vget : L -> X -> T O) (vset : L -> X -> T O -> L) 
+         (upd : L -> L) (ok : X -> Prop),
        store_laws vget vset ok ->
        forall (l0 : L) (hp hc : list X),
        NoDup (hp ++ hc) ->
        Forall ok (hp ++ hc) ->
+       forall eqv : L -> L -> Prop,
+       update_laws vset upd (hp ++ hc) l0 eqv ->
        forall l : L,
-       reach vset (hp ++ hc) l0 l ->
-       treset vset (map (mkvar vget l0) hp) (map (mkvar vget l0) hc) l = l0.
+       reach vset upd (hp ++ hc) l0 l ->
+       treset vset upd (map (mkvar vget l0) hp) (map (mkvar vget l0) hc) l = l0.
 Proof. intro O. exact (reset_restores (O:=O)). Qed.
 Print Assumptions C15_reset_restores.
 
@@ -22,16 +25,17 @@ Theorem C15_row_is_fresh_evaluation :
          (upd : L -> L) (ev : L -> list (T O)) (G D : Type) (draw : G -> D -> option (T O * G))
          (ok : X -> Prop),
        store_laws vget vset ok ->
-       (forall l : L, upd l = l) ->
        forall (l0 : L) (hp hc : list X),
        NoDup (hp ++ hc) ->
        Forall ok (hp ++ hc) ->
+       forall eqv : L -> L -> Prop,
+       update_laws vset upd (hp ++ hc) l0 eqv ->
        forall (plan : list (list nat * list (list (T O)))) (s s' : st L G D) (rows : list row),
-       reach vset (hp ++ hc) l0 (lens s) ->
+       reach vset upd (hp ++ hc) l0 (lens s) ->
        run vget vset upd ev draw (map (mkvar vget l0) hp) (map (mkvar vget l0) hc) plan s =
        Some (s', rows) ->
        Forall2 (row_spec vset upd ev (map (mkvar vget l0) hp) (map (mkvar vget l0) hc) l0) rows
-         plan /\ reach vset (hp ++ hc) l0 (lens s').
+         plan /\ reach vset upd (hp ++ hc) l0 (lens s').
 Proof. intro O. exact (row_is_fresh_evaluation (O:=O)). Qed.
 Print Assumptions C15_row_is_fresh_evaluation.
 
@@ -41,12 +45,13 @@ Theorem C15_sensitivity_ends_nominal :
          (upd : L -> L) (ev : L -> list (T O)) (G D : Type) (draw : G -> D -> option (T O * G))
          (ok : X -> Prop),
        store_laws vget vset ok ->
-       (forall l : L, upd l = l) ->
        forall (l0 : L) (hp hc : list X),
        NoDup (hp ++ hc) ->
        Forall ok (hp ++ hc) ->
+       forall eqv : L -> L -> Prop,
+       update_laws vset upd (hp ++ hc) l0 eqv ->
        forall (traces : list (list (list (T O)))) (s s' : st L G D) (rows : list row),
-       reach vset (hp ++ hc) l0 (lens s) ->
+       reach vset upd (hp ++ hc) l0 (lens s) ->
        sens_run vget vset upd ev draw (map (mkvar vget l0) hp) (map (mkvar vget l0) hc) traces s =
        Some (s', rows) ->
        lens s' = l0 /\
@@ -61,18 +66,20 @@ Theorem C15_montecarlo_rows_and_reset :
          (upd : L -> L) (ev : L -> list (T O)) (G D : Type) (draw : G -> D -> option (T O * G))
          (ok : X -> Prop),
        store_laws vget vset ok ->
-       (forall l : L, upd l = l) ->
        forall (l0 : L) (hp hc : list X),
        NoDup (hp ++ hc) ->
        Forall ok (hp ++ hc) ->
+       forall eqv : L -> L -> Prop,
+       update_laws vset upd (hp ++ hc) l0 eqv ->
        forall (traces : list (list (list (T O)))) (s s' : st L G D) (rows : list row),
-       reach vset (hp ++ hc) l0 (lens s) ->
+       reach vset upd (hp ++ hc) l0 (lens s) ->
        mc_run vget vset upd ev draw (map (mkvar vget l0) hp) (map (mkvar vget l0) hc) traces s =
        Some (s', rows) ->
        Forall2 (row_spec vset upd ev (map (mkvar vget l0) hp) (map (mkvar vget l0) hc) l0) rows
          (map
             (fun tr : list (list (T O)) => (seq 0 (Datatypes.length (map (mkvar vget l0) hp)), tr))
-            traces) /\ treset vset (map (mkvar vget l0) hp) (map (mkvar vget l0) hc) (lens s') = l0.
+            traces) /\
+       treset vset upd (map (mkvar vget l0) hp) (map (mkvar vget l0) hc) (lens s') = l0.
 Proof. intro O. exact (montecarlo_rows_and_reset (O:=O)). Qed.
 Print Assumptions C15_montecarlo_rows_and_reset.
 
@@ -82,12 +89,13 @@ Theorem C15_montecarlo_fixed_ends_nominal :
          (upd : L -> L) (ev : L -> list (T O)) (G D : Type) (draw : G -> D -> option (T O * G))
          (ok : X -> Prop),
        store_laws vget vset ok ->
-       (forall l : L, upd l = l) ->
        forall (l0 : L) (hp hc : list X),
        NoDup (hp ++ hc) ->
        Forall ok (hp ++ hc) ->
+       forall eqv : L -> L -> Prop,
+       update_laws vset upd (hp ++ hc) l0 eqv ->
        forall (traces : list (list (list (T O)))) (s s' : st L G D) (rows : list row),
-       reach vset (hp ++ hc) l0 (lens s) ->
+       reach vset upd (hp ++ hc) l0 (lens s) ->
        mc_run_fixed vget vset upd ev draw (map (mkvar vget l0) hp) (map (mkvar vget l0) hc) traces
          s = Some (s', rows) -> lens s' = l0.
 Proof. intro O. exact (montecarlo_fixed_ends_nominal (O:=O)). Qed.
